@@ -111,6 +111,37 @@ EDGE_X = [0.0, 0.99999999, 1.0 - 1e-12, 59.995 / 3600, 0.9999986, 89.9999999, -0
           359.99999, 14.99999999, 29.9999999, -15.0, 12.0, 0.5, 1e-9, -1e-9, 179.99999999, 90.0, -90.0, 345.0000001]
 
 
+def arrays_failure(seed=0):
+    """array arguments: elementwise agreement with scalar calls, inputs untouched"""
+    rng = np.random.default_rng(seed)
+    out = []
+    n = 7
+    ra1, d1 = rng.uniform(0, 360, n), rng.uniform(-80, 80, n)
+    ra2, d2 = rng.uniform(0, 360, n), rng.uniform(-80, 80, n)
+    r, th = rng.uniform(0.1, 100, n), rng.uniform(0, 360, n)
+    for name, fn, args in (("gcd", at.gcd, (ra1, d1, ra2, d2)), ("bear", at.bear, (ra1, d1, ra2, d2)),
+                           ("translate", at.translate, (ra1, d1, r, th))):
+        keep = [a.copy() for a in args]
+        res = fn(*args)
+        if any(not np.array_equal(a, k) for a, k in zip(args, keep)):
+            out.append(("%s.array_arguments_not_modified" % name, "%s modified its array arguments" % name))
+        sc = [fn(*[float(k[i]) for k in keep]) for i in range(n)]
+        res_t = np.array(res).T if isinstance(res, tuple) else np.array(res)
+        if not np.allclose(np.array(sc, dtype=float), np.array(res_t, dtype=float), rtol=1e-12, atol=1e-12):
+            out.append(("%s.array_result_elementwise_shape" % name, "%s(array) differs from the scalar calls" % name))
+    return out
+
+
+def replay_arrays(p):
+    bad = []
+    for seed in p.get("seeds", [0, 1, 2]):
+        fl = arrays_failure(seed)
+        if fl:
+            bad.append({"seed": seed, "what": fl})
+    return {"fails": bool(bad), "observed": bad[:2], "replay_func": "replay_arrays",
+            "replay_payload": {"seeds": [b["seed"] for b in bad[:2]]}}
+
+
 def crosscheck(p):
     rnd = random.Random(p.get("seed", 0))
     n = 3000 if p.get("tier") != "thorough" else 60000
@@ -159,6 +190,10 @@ def crosscheck(p):
         for lab, what in translate_failure(ra1, max(-89.5, min(89.5, d1)), r, th):
             add(lab, {"start": [ra1, d1], "r": r, "theta": th}, what, "replay_sphere",
                 {"translations": [[ra1, max(-89.5, min(89.5, d1)), r, th]]})
+    for sd in range(3):
+        evals += 1
+        for lab, what in arrays_failure(sd):
+            add(lab, {"seed": sd}, what, "replay_arrays", {"seeds": [sd]})
     return {"evaluations": evals, "failures": failures,
             "rule": "edge values + %d random angles (incl. values rounding into the next field) + %d random point pairs "
                     "(generic, near-coincident, near-antipodal, identical) + translations" % (n, n // 3)}
